@@ -98,7 +98,7 @@ class C07:
     LEVEL = "exploration"
     HANG_IS_VIOLATION = False
     TIERS = {
-        "quick": {"runs": 96, "budget_s": 170, "chunk": 1, "run_timeout_s": 300},
+        "quick": {"runs": 64, "budget_s": 170, "chunk": 1, "run_timeout_s": 300},
         "thorough": {"runs": 1800, "budget_s": 1700, "chunk": 2, "run_timeout_s": 300},
     }
     EVAL_COUNTER = "evaluations"
@@ -126,7 +126,7 @@ class C07:
                   "stubbed": ["tqdm monitor thread (disabled)"]}
     PROBES = ["children_started", "aslr_off_child", "heap_shift_child", "repeat_in_process", "colour_item",
               "none_strategy_item", "soak_history", "cancel_fired_clock", "cancel_fired_write", "cancel_fired_step",
-              "purity_sessions", "lib_call_interleaved"]
+              "purity_sessions", "lib_call_interleaved", "stdin_item"]
 
     # ------------------------------------------------------------------ generation
     def gen_case(self, seed, tier, index):
@@ -148,7 +148,8 @@ class C07:
             else:
                 a, b = gen_texts(w, fmt)
                 opts = gen_opts(w)
-            items.append({"fmt": fmt, "a": a, "b": b, "opts": opts})
+            items.append({"fmt": fmt, "a": a, "b": b, "opts": opts,
+                          "stdin": w.choice([None] * 8 + ["a", "b"])})
         lib_docs = [sched.gen_workload(w, families=("json", "json", "xml")) for _ in range(2)]
         hist = [{"kind": "main", "item": i, "clock": sc.choice(["frozen", "1ms", "3s"])} for i in range(len(items))] * 2
         hist = [dict(h) for h in hist]
@@ -184,7 +185,14 @@ class C07:
                 f.write(it["a"])
             with open(pb, "w", encoding="utf-8") as f:
                 f.write(it["b"])
-            items.append({"argv": list(it["opts"]) + [pa, pb]})
+            if it.get("stdin") == "a":
+                items.append({"argv": list(it["opts"]) + [f"--from-{it['fmt']}", "-", pb], "stdin": it["a"]})
+                counters["probe.stdin_item"] = counters.get("probe.stdin_item", 0) + 1
+            elif it.get("stdin") == "b":
+                items.append({"argv": list(it["opts"]) + [f"--to-{it['fmt']}", pa, "-"], "stdin": it["b"]})
+                counters["probe.stdin_item"] = counters.get("probe.stdin_item", 0) + 1
+            else:
+                items.append({"argv": list(it["opts"]) + [pa, pb]})
         history = [dict(h) for h in case["history"]]
         if case.get("soak"):
             tiny_a, tiny_b = os.path.join(d, "sa.json"), os.path.join(d, "sb.json")
